@@ -44,6 +44,16 @@ def acyclic(ctx):
     orules = oracle_rules(ctx, sk, ws)
     num = ctx.num
     fin, good = _acyclic_generating(orules, sk.V)
+    if P.get("chart", "real") == "real":
+        # (c) block order compatible with the dependencies -- on every sub-shape, recursive ones included
+        g = make_cfg(ctx, sk, ws)
+        deps = g.dependency_graph()
+        bucket = deps.buckets
+        bad = [(r.head, y) for r in g.rules for y in r.body if bucket[r.head] > bucket[y]]
+        ctx.check("dependency blocks: a rule's head is never in a later block than its body symbols", not bad, detail=str(bad[:3]), sig="blocks:order")
+        comps = {frozenset(c) for c in O.sccs(sorted(deps.N, key=repr), lambda x: [y for (h, y) in deps.E if h == x])}
+        ctx.check("dependency blocks are exactly the SCCs", {frozenset(b) for b in deps.blocks} == comps,
+                  detail=f"blocks {sorted(map(sorted, map(lambda b: list(map(str, b)), deps.blocks)))}", sig="blocks:sccs")
     if not fin:
         ctx.oob("recursive sub-shape", "handled by the inductive-step case")
         return
@@ -86,14 +96,6 @@ def acyclic(ctx):
         if ok:
             for X in nts:
                 ctx.eq(f"naive_bottom_up()[{X}]", nb[X], Z.get(X, num.zero), sig=f"naive:{P['shape']}:{X}")
-        # (c) block order compatible with the dependencies
-        g = make_cfg(ctx, sk, ws)
-        deps = g.dependency_graph()
-        bucket = deps.buckets
-        bad = [(r.head, y) for r in g.rules for y in r.body if bucket[r.head] > bucket[y]]
-        ctx.check("dependency blocks: a rule's head is never in a later block than its body symbols", not bad, detail=str(bad[:3]), sig="blocks:order")
-        comps = {frozenset(c) for c in O.sccs(sorted(deps.N, key=repr), lambda x: [y for (h, y) in deps.E if h == x])}
-        ctx.check("dependency blocks are exactly the SCCs", {frozenset(b) for b in deps.blocks} == comps, sig="blocks:sccs")
 
 
 @case("C08", "expected_length", domain="SNum")
@@ -237,14 +239,14 @@ def inductive(ctx):
 def jobs(tier, seed):
     out = []
     quick = tier == "quick"
-    for sh in (["G-FIN", "G-DUP", "G-WIDE", "G-NULL3"] if quick else ["G-FIN", "G-DUP", "G-WIDE", "G-NULL3", "G-NU", "G-LR", "G-DEAD", "G-TRI", "G-MUT", "G-MB"]):
+    for sh in (["G-FIN", "G-DUP", "G-WIDE", "G-NULL3", "G-HL2", "G-SCC3"] if quick else ["G-FIN", "G-DUP", "G-WIDE", "G-NULL3", "G-HL2", "G-SCC3", "G-NU", "G-LR", "G-DEAD", "G-TRI", "G-MUT", "G-MB", "G-2CYC", "G-UC"]):
         sk = grammar(sh)
         out += split_job(dict(case="acyclic", params=dict(shape=sh, chart="real")), [0] if sk.K >= 7 else [])
         out += split_job(dict(case="expected_length", params=dict(shape=sh)), [0] if sk.K >= 7 else [])
     # all pop orders (small shapes; weights positive to keep the product small)
     for sh, fixed in ([("G-FIN", {"3": 1, "5": 1}), ("G-S2", {"3": 0})] if quick else [("G-FIN", {}), ("G-S2", {"3": 0}), ("G-WIDE", {"0": 1, "1": 1})]):
         out.append(dict(case="acyclic", params=dict(shape=sh, chart="nondet", fixed=fixed), budget=dict(max_paths=6000)))
-    for sh in (["G-CAT", "G-S2", "G-TRI"] if quick else ["G-CAT", "G-S2", "G-TRI", "G-LR", "G-PAL", "G-NU", "G-MUT", "G-UC"]):
+    for sh in (["G-CAT", "G-S2", "G-TRI"] if quick else ["G-CAT", "G-S2", "G-TRI", "G-LR", "G-PAL", "G-NU", "G-MUT", "G-UC", "G-SCC3"]):
         sk = grammar(sh)
         nsym = len({h for h, _ in sk.rules} | {y for _, b in sk.rules for y in b})
         for blk in range(nsym):
